@@ -66,6 +66,8 @@ package oci
 //@ pure digestEntry(refMap map[string]ocispec.Descriptor, e ocispec.Descriptor, r string) bool = r in refMap && r == refMap[r].Digest && K(e) == K(refMap[r]) && !("org.opencontainers.image.ref.name" in e.Annotations) && (e.Annotations == nil || alive(e.Annotations))
 //@ func (*Store).saveIndex
 //@   requires [ri] storeRI(s)
+//@   call writeIndexFile requires [C06,C08:index-lock-held-while-writing] held(lockOf(s, "indexLock")) == 1
+//@   ensures [C06:index-lock-released] held(lockOf(s, "indexLock")) == 0
 //@   opt trust-frame
 //@   call writeIndexFile set indexVersion(s) = indexVersion(s) + (result == nil ? 1 : 0)
 //@   loop 0 invariant [objects] storeRI(s) && s.index != nil && s.index == old(s.index) && refMap != nil && alive(refMap) && tagged != nil && alive(tagged) && s.tagResolver == old(s.tagResolver) && (forall r string :: (r in refMap) == old(r in s.tagResolver.index) && (r in refMap ==> refMap[r] == old(s.tagResolver.index[r])))
@@ -95,10 +97,12 @@ package oci
 //@
 //@ func (*Store).Delete
 //@   requires [ri] storeRI(s)
-//@   loop 0 invariant [kept] storeRI(s) && s.tagResolver == old(s.tagResolver) && s.graph == old(s.graph) && s.storage == old(s.storage) && s.AutoGC == old(s.AutoGC)
+//@   call delete requires [C06,C09:exclusive-lock-held-while-deleting] held(lockOf(s, "sync")) == 1
+//@   ensures [C06:lock-released] held(lockOf(s, "sync")) == 0
+//@   loop 0 invariant [kept] held(lockOf(s, "sync")) == 1 && storeRI(s) && s.tagResolver == old(s.tagResolver) && s.graph == old(s.graph) && s.storage == old(s.storage) && s.AutoGC == old(s.AutoGC)
 //@   loop 0 decreases [C09:terminates] blobCount(s.storage)
-//@   loop 1 invariant [kept] storeRI(s) && s.tagResolver == old(s.tagResolver) && s.graph == old(s.graph) && s.storage == old(s.storage) && s.AutoGC == old(s.AutoGC)
-//@   loop 2 invariant [kept] storeRI(s) && s.tagResolver == old(s.tagResolver) && s.graph == old(s.graph) && s.storage == old(s.storage) && s.AutoGC == old(s.AutoGC)
+//@   loop 1 invariant [kept] held(lockOf(s, "sync")) == 1 && storeRI(s) && s.tagResolver == old(s.tagResolver) && s.graph == old(s.graph) && s.storage == old(s.storage) && s.AutoGC == old(s.AutoGC)
+//@   loop 2 invariant [kept] held(lockOf(s, "sync")) == 1 && storeRI(s) && s.tagResolver == old(s.tagResolver) && s.graph == old(s.graph) && s.storage == old(s.storage) && s.AutoGC == old(s.AutoGC)
 //@   call append requires [C09:enqueue-untagged-only] forall i int :: 0 <= i && i < len(args.arg1) ==> !taggedNow(s, args.arg1[i])
 //@
 //@ func (*graph.Memory).IndexAll
@@ -145,8 +149,11 @@ package oci
 //@
 //@ func (*Store).GC
 //@   requires [ri] storeRI(s) && ctx != nil
-//@   loop 0 invariant [kept] reachableNodes != nil && (forall i int :: 0 <= i && i < len(algDirs) ==> algDirs[i] != nil)
-//@   loop 1 invariant [kept] reachableNodes != nil && (forall i int :: 0 <= i && i < len(algDirs) ==> algDirs[i] != nil) && (forall i int :: 0 <= i && i < len(digestEntries) ==> digestEntries[i] != nil)
+//@   call gcIndex requires [C06,C09:exclusive-lock-held-while-collecting] held(lockOf(s, "sync")) == 1
+//@   call os.Remove requires [C06,C09:exclusive-lock-held-while-removing-files] held(lockOf(s, "sync")) == 1
+//@   ensures [C06:lock-released] held(lockOf(s, "sync")) == 0
+//@   loop 0 invariant [kept] held(lockOf(s, "sync")) == 1 && reachableNodes != nil && (forall i int :: 0 <= i && i < len(algDirs) ==> algDirs[i] != nil)
+//@   loop 1 invariant [kept] held(lockOf(s, "sync")) == 1 && reachableNodes != nil && (forall i int :: 0 <= i && i < len(algDirs) ==> algDirs[i] != nil) && (forall i int :: 0 <= i && i < len(digestEntries) ==> digestEntries[i] != nil)
 //@   call os.Remove requires [C09:remove-only-unreachable] !(blobDigest in reachableNodes)
 //@   call os.Remove requires [C09:known-algorithm-only] alg == "sha256" || alg == "sha512" || alg == "sha384"
 //@
@@ -208,6 +215,8 @@ package oci
 //@
 //@ func (*Store).Push
 //@   requires [ri] storeRI(s)
+//@   call (*Storage).Push requires [C06:shared-lock-held-while-pushing] held(lockOf(s, "sync")) == 2
+//@   ensures [C06:lock-released] held(lockOf(s, "sync")) == 0
 //@   ensures [C07:indexed-after-successful-push] result == nil ==> K(expected) in s.graph.nodes
 //@   ensures [C06:manifest-tagged-by-digest] result == nil && isManifestType(expected) ==> expected.Digest in s.tagResolver.index && s.tagResolver.index[expected.Digest] == expected
 //@   ensures [C06,C07:ri] storeRI(s) && s.graph == old(s.graph) && s.tagResolver == old(s.tagResolver)
